@@ -19,6 +19,9 @@ type Op struct {
 	V  int64   `json:"v,omitempty"`
 	P  int64   `json:"p,omitempty"`
 	NP bool    `json:"np,omitempty"` // appopt: no priority argument
+	// set: called with the priority the element has at that moment (Set(i, v, GetPriority(i))); P is filled in when the
+	// case runs
+	Same bool `json:"same,omitempty"`
 	Vs []int64 `json:"vs,omitempty"`
 }
 type Res struct {
@@ -163,7 +166,14 @@ func apply(a api, o Op) (res Res) {
 func runImpl(c *Case) {
 	a := newAPI(c)
 	c.Out = c.Out[:0]
-	for _, o := range c.Ops {
+	for i, o := range c.Ops {
+		if o.K == "set" && o.Same {
+			func() {
+				defer func() { recover() }()
+				c.Ops[i].P = int64(a.getp(int(o.I)))
+			}()
+			o = c.Ops[i]
+		}
 		r := apply(a, o)
 		r.St = a.dump()
 		c.Out = append(c.Out, r)
@@ -418,7 +428,19 @@ func genCase(rng *vh.RNG, next *int64) Case {
 				continue
 			}
 			k := []string{"get", "getv", "getp", "set", "set", "setv", "setp", "setp"}[rng.Intn(8)]
-			c.Ops = append(c.Ops, Op{K: k, I: j, V: val(), P: prio()})
+			o := Op{K: k, I: j, V: val(), P: prio()}
+			if k == "set" && rng.Chance(1, 3) {
+				// replace the element under its present priority, then (mostly) re-prioritise that very element: the
+				// second call meets an item that no sort has seen yet
+				o.Same = true
+				c.Ops = append(c.Ops, o)
+				if rng.Chance(2, 3) {
+					c.Ops = append(c.Ops, Op{K: "setp", I: j, P: prio()})
+					i++
+				}
+				continue
+			}
+			c.Ops = append(c.Ops, o)
 		case x < 74:
 			c.Ops = append(c.Ops, Op{K: "len"})
 		case x < 77:
